@@ -271,8 +271,16 @@ func (w *World) planCorruption() {
 	whichCall := scn(len(w.Calls))
 	onResp := scnChance(1, 2)
 	fragSel := scn(3) // 0 first, 1 any middle, 2 last
-	field := scn(3)   // 0 chunk data, 1 checksum byte, 2 chunk data near the end
+	field := scn(4)   // 0 chunk data, 1 checksum byte, 2 chunk data near the end, 3 the checksum TYPE of a later fragment
 	mode := scn(3)
+	if field == 3 {
+		// "the checksum type changes mid-message": the type byte of a continuation fragment
+		// becomes another type of the same size, the frame stays well-formed
+		mode = 3
+		if fragSel == 0 {
+			fragSel = 1 + scn(2)
+		}
+	}
 	mask := byte(1 << uint(scn(8)))
 	target := w.Calls[whichCall]
 	armed := false
@@ -327,6 +335,10 @@ func (w *World) planCorruption() {
 			if f.CsumOff > 0 {
 				off = f.CsumOff + scn(4)
 			}
+		case 3:
+			if f.CsumOff > 0 && !first {
+				off = f.CsumOff - 1
+			}
 		}
 		if off < 0 {
 			// a data byte of a non-empty chunk (skip arg1 of first frames: it selects the handler)
@@ -353,7 +365,7 @@ func (w *World) planCorruption() {
 		} else {
 			target.CorruptReq = true
 		}
-		w.probe(fmt.Sprintf("C02.corrupt.%s.%s", []string{"first", "middle", "last"}[fragSel], []string{"chunk", "checksum", "chunk-end"}[field]))
+		w.probe(fmt.Sprintf("C02.corrupt.%s.%s", []string{"first", "middle", "last"}[fragSel], []string{"chunk", "checksum", "chunk-end", "checksum-type"}[field]))
 		return off
 	}
 	prev := w.linkHook
